@@ -233,12 +233,17 @@ decreasing_by all_goals (subst_vars; simp only [List.length_cons]; omega)
 
 def isDigit (c : UInt8) : Bool := 0x30 ≤ c.toNat && c.toNat ≤ 0x39
 
+/-- the leading digits and the rest -/
+def spanDigits : Bytes → Bytes × Bytes
+  | [] => ([], [])
+  | c :: r => if isDigit c then ((c :: (spanDigits r).1), (spanDigits r).2) else ([], c :: r)
+
 /-- optional fraction `.digits` -/
 def scanFrac (s : Bytes) : Option (Bytes × Bytes) :=
   match s with
   | c :: r =>
     if c.toNat = 0x2E then
-      let p := r.span isDigit
+      let p := spanDigits r
       if p.1.isEmpty then none else some (c :: p.1, p.2)
     else some ([], s)
   | [] => some ([], s)
@@ -251,10 +256,10 @@ def scanExp (s : Bytes) : Option (Bytes × Bytes) :=
       match r with
       | g :: r' =>
         if g.toNat = 0x2B ∨ g.toNat = 0x2D then
-          let p := r'.span isDigit
+          let p := spanDigits r'
           if p.1.isEmpty then none else some (c :: g :: p.1, p.2)
         else
-          let p := r.span isDigit
+          let p := spanDigits r
           if p.1.isEmpty then none else some (c :: p.1, p.2)
       | [] => none
     else some ([], s)
@@ -262,7 +267,7 @@ def scanExp (s : Bytes) : Option (Bytes × Bytes) :=
 
 /-- the digits of the integer part: `0` or a non-zero digit followed by digits -/
 def scanInt (s : Bytes) : Option (Bytes × Bytes) :=
-  let p := s.span isDigit
+  let p := spanDigits s
   if p.1.isEmpty then none
   else if p.1.head? = some 0x30 ∧ 1 < p.1.length then none
   else some p
